@@ -198,17 +198,18 @@ Qed.
 
 (* ---------- (3) every chunk fits whenever the cuts are safe ---------- *)
 Theorem fmt_chunk_fits : forall s (n : Z) cF mx ls,
-  s <> [] -> munged s = true -> parse s = Ok (cF, mx) -> (Z.of_N mx <= n)%Z ->
+  s <> [] -> munged s = true -> parse s = Ok (cF, mx) -> (Z.of_N mx + 4 <= n)%Z ->
   safe_cuts s n = true -> wrap s n = Ok ls ->
   Forall (fun c => (Z.of_nat (length (utf8 c)) <= n)%Z) ls.
 Proof.
   intros s n cF mx ls Hne Hmu Hparse Hn Hsafe Hw.
   unfold safe_cuts, raw_chunks in Hsafe. unfold wrap, wrap_w in Hw. rewrite Hparse in Hsafe, Hw. cbn [bind snd] in Hsafe, Hw.
   destruct (byteTextWrap (split_chunks s) (n - Z.of_N mx)) as [raw|e] eqn:Eb; [|discriminate]. cbn [bind] in Hw.
-  pose proof (byteTextWrap_nonnil s _ raw Hne Eb) as Hnn.
+  pose proof (byteTextWrap_nonnil s (n - Z.of_N mx) raw ltac:(lia) Hne Eb) as Hnn.
   pose proof (wrap_munge s _ raw Eb) as Hcat. rewrite (munge_id s Hmu) in Hcat.
   pose proof Eb as Hfit. apply byteTextWrap_inv in Hfit.
-  apply btw_loop_fits in Hfit; [|unfold fits; cbn; lia|constructor].
+  apply btw_loop_fits in Hfit; [|lia|unfold fits; cbn; lia|constructor].
+  replace (N.max 1 (Z.to_N (n - Z.of_N mx))) with (Z.to_N (n - Z.of_N mx)) in Hfit by lia.
   set (budget := Z.to_N (n - Z.of_N mx)) in *.
   assert (Goal : Forall (fun o => blen o <= budget + mx) ls).
   { destruct raw as [|r1 rest]; [cbn [process] in Hw; injection Hw as <-; constructor|].
